@@ -147,7 +147,7 @@ fn classify_abort(panics: &[PanicRec]) -> (End, Option<String>) {
     (End::Deadlock(String::new()), Some(last))
 }
 
-pub fn child_main(sc: &Scenario, root: &Path, wfd: i32, trace: bool) -> ! {
+fn prepare_child(sc: &Scenario, root: &Path, wfd: i32) {
     unsafe {
         // the code under test prints a lot; stdout/stderr must stay open but go nowhere
         let devnull = libc::open(b"/dev/null\0".as_ptr() as *const libc::c_char, libc::O_WRONLY);
@@ -192,30 +192,25 @@ pub fn child_main(sc: &Scenario, root: &Path, wfd: i32, trace: bool) -> ! {
         } else {
             "<non-string panic payload>".to_string()
         };
+        let conn = rt::WORLD.get().and_then(|w| w.st.try_lock().ok().and_then(|s| s.last_conn));
         if let Ok(mut p) = PANICS.lock() {
-            p.push(PanicRec { file, line, msg });
+            p.push(PanicRec { file, line, msg, conn });
         }
     }));
+}
 
-    let sc_arc = Arc::new(sc.clone());
-    let sc_fin = sc_arc.clone();
-    let finish: world::Finish = Arc::new(move |report| {
-        let out = oracle::judge(&sc_fin, &report);
-        let json = serde_json::to_vec(&out).unwrap_or_else(|e| format!("{{\"harness_error\":\"{}\"}}", e).into_bytes());
-        write_all_fd(wfd, &json);
-        unsafe { libc::_exit(0) };
-    });
-
+/// One shuttle execution of the scenario; `finish` is called from inside the world and must not
+/// return. Returns only when shuttle gave up (deadlock, step bound, escaped harness panic).
+fn run_world(sc: &Scenario, trace: bool, finish: world::Finish) {
     let mut cfg = shuttle::Config::new();
     cfg.stack_size = STACK_SIZE;
     cfg.failure_persistence = shuttle::FailurePersistence::None;
     cfg.max_steps = shuttle::MaxSteps::FailAfter(step_bound(sc));
     cfg.silence_warnings = true;
-    let sc_run = sc_arc.clone();
-    let fin2 = finish.clone();
-    let body = move || world::world_main((*sc_run).clone(), trace, fin2.clone());
+    let sc_run = Arc::new(sc.clone());
+    let body = move || world::world_main((*sc_run).clone(), trace, finish.clone());
     let seed = sc.sched.seed;
-    let result = std::panic::catch_unwind(std::panic::AssertUnwindSafe(|| match sc.sched.kind {
+    let _ = std::panic::catch_unwind(std::panic::AssertUnwindSafe(|| match sc.sched.kind {
         SchedKind::Random => {
             shuttle::Runner::new(shuttle::scheduler::RandomScheduler::new_from_seed(seed, 1), cfg).run(body);
         }
@@ -226,8 +221,38 @@ pub fn child_main(sc: &Scenario, root: &Path, wfd: i32, trace: bool) -> ! {
             shuttle::Runner::new(shuttle::scheduler::RoundRobinScheduler::new(1), cfg).run(body);
         }
     }));
+}
+
+/// Grandchild of a C08 run: a fresh node, one request, the raw response bytes go to the pipe.
+pub fn solo_child(sc: &Scenario, wfd: i32) -> ! {
+    let finish: world::Finish = Arc::new(move |report| {
+        let bytes = report.conns.get(0).map(|c| c.outbound.clone()).unwrap_or_default();
+        write_all_fd(wfd, &bytes);
+        unsafe { libc::_exit(0) };
+    });
+    run_world(sc, false, finish);
+    unsafe { libc::_exit(1) };
+}
+
+pub fn child_main(sc: &Scenario, root: &Path, wfd: i32, trace: bool) -> ! {
+    prepare_child(sc, root, wfd);
+    if sc.property == "C08" {
+        crate::solo::compute(sc);
+    }
+    let sc_fin = Arc::new(sc.clone());
+    let finish: world::Finish = Arc::new(move |report| {
+        crate::fsmon::arm(false);
+        let out = oracle::judge(&sc_fin, &report);
+        let json = serde_json::to_vec(&out).unwrap_or_else(|e| format!("{{\"harness_error\":\"{}\"}}", e).into_bytes());
+        write_all_fd(wfd, &json);
+        unsafe { libc::_exit(0) };
+    });
+    if sc.property == "C13" {
+        crate::fsmon::arm(true);
+    }
+    run_world(sc, trace, finish);
+    crate::fsmon::arm(false);
     // the world never returns normally (finish() exits); we are here because shuttle gave up
-    let _ = result;
     let panics = PANICS.lock().map(|p| p.clone()).unwrap_or_default();
     let (mut end, harness) = classify_abort(&panics);
     if rt::WORLD.get().is_none() {
